@@ -259,6 +259,13 @@ class ModelObject:
             except KeyError:
                 pass
 
+        if isinstance(instance, Collection):
+            # item_number (the next index used by append, part of the identifier)
+            # is not serialised: positional items are stored under "0", "1", ...
+            instance.item_number = sum(
+                1 for key in d["arguments"] if str(key).isdigit()
+            )
+
         if "assertions" in d:
             instance.assertions = [
                 from_dict(
